@@ -178,11 +178,11 @@ theorem cached_hits_agree (f : κ → ν) (cap ttl : Int) (progs : List (List (I
     exact hputs r' (hperm.subset hr')
   exact run_gets_agree f hinit (w.map (·.op)) hp' (r.op, r.out) hmem k v hk hv
 
-/-- The executable checker run by the driver domain `linearize` only accepts linearizable histories. -/
-theorem checker_sound (s0 : State κ ν) [DecidableEq ν] (h : List (Rec (Int × Op κ ν) (Out κ ν)))
-    (hc : linearizable? (lruSpec (κ := κ) (ν := ν)).step s0 h = true) :
-    Linearizable (lruSpec (κ := κ) (ν := ν)).step s0 h :=
-  linearizable?_sound _ _ _ hc
+/-- The executable checker run by the driver domain `linearize` accepts exactly the linearizable
+    histories (for any sequential specification; the driver uses `Lru.step` with `keys` sorted). -/
+theorem checker_correct {σ ι ο : Type} [DecidableEq ο] (step : σ → ι → σ × ο) (s0 : σ) (h : List (Rec ι ο)) :
+    linearizable? step s0 h = true ↔ Linearizable step s0 h :=
+  linearizable?_iff step s0 h
 
 end LRU
 
